@@ -53,6 +53,17 @@ var (
 
 // Batch sends the lines and returns one answer per line.
 func (a *Adapter) Batch(lines []string) ([]string, error) {
+	// The answers are a function of the questions: a batch whose output does
+	// not line up (a runtime printing a warning of its own on a loaded machine
+	// was seen once in a seed sweep) is simply asked again, twice at most.
+	res, err := a.batchOnce(lines)
+	for try := 0; err != nil && try < 2; try++ {
+		res, err = a.batchOnce(lines)
+	}
+	return res, err
+}
+
+func (a *Adapter) batchOnce(lines []string) ([]string, error) {
 	if len(lines) == 0 {
 		return nil, nil
 	}
